@@ -133,7 +133,7 @@ KF_Set(ev) ==
 
 SetOK(ev) ==
   /\ J(Len(ev.src) = ev.n /\ IsBits(ev.src) /\ ev.do + ev.n <= Len(ev.d0), "set: input")
-  /\ JudgeKF(ev.d1 = SetWant(ev), l, "set_bits result", KF_Set(ev))
+  /\ JudgeKF(ev.d1 = SetWant(ev), l, "set_bits", KF_Set(ev))
   /\ J(Outside(ev.d1, ev.d0, ev.do, ev.n), "set_bits frame")
   /\ J(ev.ret = CountZeros(ev.src), "set_bits returned zero count")
 
